@@ -250,6 +250,53 @@ def import_results(ck, module, clause, func_substr, new_clause):
     return n
 
 
+def mode_converter(facts):
+    """the function translating calloop's Mode into the poller's PollMode, found by its role: a local function whose
+    parameters are one `sys::Mode` and one `bool` (in either order) and whose return type is polling::PollMode.
+    Returns (body, index of the Mode parameter, index of the bool parameter) or None"""
+    out = []
+    for b in list(facts.bodies.values()) + facts.dropped_helper_bodies():
+        if b.kind not in ("Fn", "AssocFn") or b.arg_count != 2:
+            continue
+        tys = [facts.types[b.local_ty(i)]["s"] for i in range(3)]
+        if not tys[0].endswith("PollMode"):
+            continue
+        if tys[1] == "sys::Mode" and tys[2] == "bool":
+            out.append((b, 1, 2))
+        elif tys[2] == "sys::Mode" and tys[1] == "bool":
+            out.append((b, 2, 1))
+    return out[0] if len(out) == 1 else None
+
+
+def import_e3(ck, new_clause, pred):
+    """copies into this check the records of C18's exploration (E3) selected by pred(instance), plus
+    its summary record; the exploration runs once per fact set"""
+    from core import AnchorMissing
+    from props import C18
+
+    if getattr(ck, "nested", False):
+        return 0
+    cache = ck.facts.__dict__.setdefault("_e3_results", {})
+    key = (ck.prop, ck.tier)
+    if key not in cache:
+        sub = type(ck)(ck.prop, ck.facts, ck.config, ck.tier)
+        sub.nested = True
+        try:
+            C18.run(sub)
+        except AnchorMissing:
+            pass
+        cache[key] = sub
+    n = 0
+    for r in cache[key].results:
+        if r["instance"] == "explored" or r["verdict"] == "anchor-missing" or (r["verdict"] != "ok" and pred(r["instance"])):
+            r = dict(r)
+            r["key"] = r["key"].replace("%s.1/" % ck.prop, "%s.%s/" % (ck.prop, new_clause), 1)
+            r["clause"] = new_clause
+            ck.results.append(r)
+            n += 1
+    return n
+
+
 def dispatch_infra(ck, clause):
     if getattr(ck, "nested", False):
         return
